@@ -99,6 +99,17 @@ def gen_two_roots_inner(rng: random.Random) -> Dict[str, Any]:
     feats = {"f1": {"inputs": ["a", "b"], "c0": 0, "coefs": [1, rng.choice([1, 2])]}}
     if rng.random() < 0.5:
         feats["f2"] = {"inputs": ["f1"], "c0": 1, "coefs": [1]}
+    if cf[0] == cf[1] and rng.random() < 0.5:
+        # one feature-group step MIXING a feature over both sides with one over the right side only, and a further group built on
+        # the joined feature (one framework): after the join everything runs on the left root's object, whose bookkeeping of
+        # already calculated children then also sees features that are not among its own children
+        feats = {"f1": {"inputs": ["a", "b"], "c0": 0, "coefs": [1, rng.choice([1, 2])]},
+                 "f3": {"inputs": ["b"], "c0": rng.randrange(0, 3), "coefs": [rng.choice([1, 3])]}}
+        groups.append({"name": "D1", "kind": "derived", "cfw": cf[0], "features": feats})
+        groups.append({"name": "D2", "kind": "derived", "cfw": cf[0],
+                       "features": {"f4": {"inputs": ["f1"], "c0": 1, "coefs": [2]}}})
+        return {"groups": groups, "request": ["f4", "f3"] if rng.random() < 0.7 else ["f4"], "family": "join_mixed_step",
+                "links": [{"jt": "INNER", "l": "R0", "r": "R1", "li": ["k"], "ri": ["k"]}]}
     groups.append({"name": "D1", "kind": "derived", "cfw": ccfw, "features": feats})
     return {"groups": groups, "request": [rng.choice(list(feats))],
             "links": [{"jt": "INNER", "l": "R0", "r": "R1", "li": ["k"], "ri": ["k"]}]}
